@@ -1360,6 +1360,19 @@ class Interp:
     # ---------------------------------------------------------------- concrete lists and iterator chains
     def stateful_call(self, env, cs, args):
         """models that update the value behind a `&mut` argument: Iterator::next on a concrete iterator, Vec::push/append"""
+        if args and args[0].k == "entry" and (cs.fn or "").rsplit("::", 1)[-1] in ("or_insert", "or_insert_with", "or_default") and "Entry" in (cs.fn or ""):
+            # `map.entry(k).or_insert(v)`: the value is stored only when the key is absent (the Entry value carries the map's place)
+            mref_, key_ = args[0].v
+            fr_, l_, path_ = _resolve_place(mref_.extra, env)
+            slot_ = _Slot(fr_, l_, path_)
+            cur_ = slot_.get("slot", UNKNOWN)
+            k0 = key_.deref()
+            if cur_.k != "list" or cur_.extra != "map" or k0.k not in ("str", "int", "variant") or (cs.fn or "").rsplit("::", 1)[-1] != "or_insert" or len(args) < 2:
+                raise Diverged()
+            hit_ = [x for x in cur_.v if x.deref().v[0].deref().k == k0.k and x.deref().v[0].deref().v == k0.v]
+            if not hit_:
+                slot_["slot"] = Val("list", list(cur_.v) + [Val("tuple", [key_, args[1]])], "map")
+            return Val("unknown", "entry-value-ref")
         if not args or args[0].k != "ref" or not (isinstance(args[0].extra, tuple) and args[0].extra and args[0].extra[0] == "place"):
             return None
         fn = cs.fn or ""
@@ -1455,6 +1468,8 @@ class Interp:
         if fn in ("alloc::string::String::push", "alloc::string::String::push_str") and cur.k == "str" and len(args) > 1 and args[1].deref().k in ("str", "char"):
             env[tgt] = vstr(cur.v + args[1].deref().v)
             return UNIT
+        if fn in ("std::collections::hash::map::HashMap::entry", "alloc::collections::btree::map::BTreeMap::entry") and cur.k == "list" and cur.extra == "map" and len(args) > 1:
+            return Val("entry", [args[0], args[1]])
         if fn in ("std::collections::hash::map::HashMap::insert", "alloc::collections::btree::map::BTreeMap::insert") and cur.k == "list" and cur.extra == "map" and len(args) > 2:
             k0 = args[1].deref()
             old = [x for x in cur.v if x.v[0].deref().k == k0.k and x.v[0].deref().k in ("str", "variant", "int") and x.v[0].deref().v == k0.v]
